@@ -181,7 +181,10 @@ def main():
                 hamp = ham
             Nt = int(rng.randint(4, 8))
             dt = float(rng.choice([2.0, 5.0]))
-            time = qr.TimeAxis(0.0, Nt, dt)
+            # the grid need not start at zero
+            t0 = float((0.0, 50.0, -20.0, 7.5)[s % 4])
+            time = qr.TimeAxis(t0, Nt, dt)
+            rp["t0"] = t0
             dim = ham.dim
             esos = {}
             for dn in (1, 2, 4):
@@ -233,6 +236,12 @@ def main():
                     data=rho0.copy()))
                 worst = max(worst, float(numpy.abs(numpy.array(r.data) -
                                                    dd[i]).max()))
+                # the superoperator read at a grid point is the stored slice
+                ua = numpy.array(quiet(e2.at, float(t)).data)
+                if numpy.abs(ua - numpy.array(e2.data[i])).max() > 0:
+                    ck.violation("at-is-stored-slice", kind,
+                                 dict(rp, index=i, t=float(t)), rp)
+            ck.case("at-is-stored-slice", s, nontrivial=t0 != 0.0)
             allat = quiet(e2.apply, time, qr.ReducedDensityMatrix(
                 data=rho0.copy()))
             worst = max(worst, float(numpy.abs(numpy.array(allat.data) -
@@ -279,8 +288,9 @@ def main():
                         math.exp(gg * h) * growth
                     worst = 0.0
                     for i, t in enumerate(time.data):
-                        E = scipy.linalg.expm(Lm * t).reshape(dim, dim, dim,
-                                                              dim)
+                        # (elapsed time since the first grid point)
+                        E = scipy.linalg.expm(Lm * (t - time.data[0])
+                                              ).reshape(dim, dim, dim, dim)
                         worst = max(worst, float(numpy.abs(esos[dn][i] -
                                                            E).max()))
                     ck.case("dense-refinement", (s, dn), sample=dict(
